@@ -1,5 +1,6 @@
 """C03 — text layout shows every character once, in order, within the width.
-Contract: spec/TextLayoutOps.tla; consistency/satisfiability model: spec/TextLayout.tla; trace spec: spec/TextLayoutTrace.tla.
+Contract: spec/TextLayoutOps.tla; consistency/satisfiability model: spec/TextLayout.tla; design model of the living widget
+(mutators, canvas cache, kept translation): spec/TextLayoutWidget.tla; trace spec: spec/TextLayoutTrace.tla.
 
 The driver calls the real StandardTextLayout.layout / Text.rows / Text.pack / Text.render for every text over a small
 alphabet (exhaustive) and seeded random longer texts, x width x wrap x align x str|bytes x {utf8, euc-jp, iso8859-1},
@@ -15,22 +16,42 @@ import time
 
 from .. import tlc
 
-MODES = {"utf8": "utf-8", "wide": "euc-jp", "narrow": "iso8859-1"}
+# encoding mode -> (name given to urwid.set_encoding, Python codec that reads the bytes, urwid's byte mode)
+MODE_DEF = {"utf8": ("utf-8", "utf-8", "utf8"), "wide": ("euc-jp", "euc-jp", "wide"), "narrow": ("iso8859-1", "iso8859-1", "narrow"),
+            # double-byte encodings whose second byte may lie in the ASCII range 0x40..0x7E and whose lead byte starts at 0x81
+            "gbk": ("gbk", "gbk", "wide"), "uhc": ("uhc", "cp949", "wide"), "big5": ("big5", "big5hkscs", "wide")}
+MODES = {m: d[1] for m, d in MODE_DEF.items()}
+DBCS = ("gbk", "uhc", "big5")
+KINDS = {"utf8": ("str", "bytes"), "wide": ("str", "bytes"), "narrow": ("str", "bytes"), "gbk": ("str", "bytes"), "uhc": ("bytes",),
+         "big5": ("bytes",)}      # urwid encodes str with the codec named 'big5', which has no HKSCS characters: bytes only
 WRAPS = ["any", "space", "clip", "ellipsis"]
 ALIGNS = ["left", "center", "right"]
 NL = 4
 # display width per class id — must equal CW in spec/TextLayoutOps.tla (checked by check_tables)
-CW = [None, 1, 1, 1, 0, 2, 0, 1, 1, 1, 2, 2, 0, 2]
+CW = [None, 1, 1, 1, 0, 2, 0, 1, 1, 1, 2, 2, 0, 2, 2, 2, 0, 0, 1, 2, 2]
 # the alphabet table: class id -> concrete character, per encoding mode
 CHARS = {
-    "utf8": {1: "a", 2: "b", 3: " ", 4: "\n", 5: "字", 6: "́", 7: "…", 8: ".", 9: "é", 10: "界", 11: "\U0001f600", 12: "​"},
+    # 16 zero-width joiner, 17 variation selector 16, 18 a base VS-16 is used with, 19/20 regional indicators (a pair = a flag):
+    # sequence-aware measuring (wcswidth) differs from the per-character widths on these
+    "utf8": {1: "a", 2: "b", 3: " ", 4: "\n", 5: "字", 6: "́", 7: "…", 8: ".", 9: "é", 10: "界", 11: "\U0001f600", 12: "​",
+             16: "\u200d", 17: "\ufe0f", 18: "\u2764", 19: "\U0001f1fa", 20: "\U0001f1f8"},
     "wide": {1: "a", 2: "b", 3: " ", 4: "\n", 5: "字", 8: ".", 10: "界", 13: "…"},   # 13: only ever produced by urwid (the mark)
     "narrow": {1: "a", 2: "b", 3: " ", 4: "\n", 8: ".", 9: "é"},
+    # 5: lead byte 0x81..0xA0 + second byte in 0x40..0x7E; 11: lead >= 0xA1 + low second byte; 14: low lead + high second byte;
+    # 15: low lead + second byte 0x7E / 'z'; 10: both bytes high
+    "gbk": {1: "a", 2: "b", 3: " ", 4: "\n", 5: "\u4e02", 8: ".", 10: "字", 11: "\u72dc", 13: "…", 14: "\u4e90", 15: "\u721a"},
+    "uhc": {1: "a", 2: "b", 3: " ", 4: "\n", 5: "\uac02", 8: ".", 10: "\uac00", 11: "\uc8a5", 13: "…", 14: "\uac56", 15: "\uc7fa"},
+    "big5": {1: "a", 2: "b", 3: " ", 4: "\n", 5: "\u43f0", 8: ".", 10: "字", 11: "\u4e00", 13: "…", 14: "\u4413", 15: "\u35d2"},
 }
-EXH = {"utf8": [1, 2, 3, 4, 5, 6], "wide": [1, 2, 3, 4, 5], "narrow": [1, 9, 3, 4]}
-RND = {"utf8": [1, 1, 2, 2, 3, 3, 3, 4, 5, 5, 6, 6, 7, 8, 9, 10, 11, 12], "wide": [1, 1, 2, 2, 3, 3, 3, 4, 5, 5, 10, 8],
+LOWTRAIL = {m: {i for i, ch in CHARS[m].items() if len(ch.encode(MODES[m])) == 2 and ch.encode(MODES[m])[1] < 0x80} for m in DBCS}
+EXH = {"utf8": [1, 2, 3, 4, 5, 6], "wide": [1, 2, 3, 4, 5], "narrow": [1, 9, 3, 4], "gbk": [1, 3, 5, 11], "uhc": [1, 3, 5],
+       "big5": [1, 5, 10]}
+EXH2 = {"utf8": [1, 16, 17, 19]}        # second exhaustive alphabet: joiner, variation selector, regional indicator among letters
+RND = {"utf8": [1, 1, 2, 2, 3, 3, 3, 4, 5, 5, 6, 6, 7, 8, 9, 10, 11, 12, 16, 16, 17, 18, 19, 20], "wide": [1, 1, 2, 2, 3, 3, 3, 4, 5, 5, 10, 8],
        "narrow": [1, 1, 2, 2, 3, 3, 3, 4, 8, 9]}
-MINMARK = {"utf8": 1, "wide": 2, "narrow": 1}
+for _m in DBCS:
+    RND[_m] = [1, 1, 2, 3, 3, 3, 4, 5, 5, 5, 10, 11, 11, 14, 15, 8]
+MINMARK = {"utf8": 1, "wide": 2, "narrow": 1, "gbk": 2, "uhc": 2, "big5": 2}
 
 
 def check_tables():
@@ -52,8 +73,12 @@ def check_tables():
             b = ch.encode(MODES[mode])
             if b.decode(MODES[mode]) != ch:
                 raise tlc.MachineryError(f"{ch!r} does not round-trip in {mode}")
+            if MODE_DEF[mode][2] == "wide" and not (
+                    (len(b) == 1 and b[0] < 0x80) or (len(b) == 2 and b[0] >= 0x81 and (0x40 <= b[1] <= 0x7E or b[1] >= 0x80))):
+                # the documented pairing rule of the double-byte mode: a byte >= 0x81 followed by 0x40..0x7E or >= 0x80 is one character
+                raise tlc.MachineryError(f"alphabet table: id {i} {ch!r} in {mode}: {b!r} is not one character by the pairing rule")
             uw = max(0, wcwidth.wcwidth(ch))
-            bw = uw if mode == "utf8" else len(b)     # euc-jp / latin-1 terminals: one column per byte
+            bw = uw if mode == "utf8" else len(b)     # double-byte / latin-1 terminals: one column per byte
             if bw != CW[i] or (uw != CW[i] and i != 13):
                 raise tlc.MachineryError(f"alphabet table: id {i} {ch!r} in {mode}: width {uw}/{bw}, table says {CW[i]}")
 
@@ -69,9 +94,9 @@ class Enc:
         from urwid import str_util, util
 
         self.old = (util._target_encoding, util._use_dec_special, str_util.get_byte_encoding())
-        urwid.set_encoding(MODES[self.mode])
-        if str_util.get_byte_encoding() != self.mode:
-            raise tlc.MachineryError(f"set_encoding({MODES[self.mode]}) gave byte mode {str_util.get_byte_encoding()}")
+        urwid.set_encoding(MODE_DEF[self.mode][0])
+        if str_util.get_byte_encoding() != MODE_DEF[self.mode][2]:
+            raise tlc.MachineryError(f"set_encoding({MODE_DEF[self.mode][0]}) gave byte mode {str_util.get_byte_encoding()}")
         return self
 
     def __exit__(self, *a):
@@ -136,68 +161,165 @@ def _exc_detail(ex):
     return ""
 
 
-def run_case(mode, kind, ids, w, wrap, order=0):
-    """One trace: the text laid out at width w with wrap mode wrap, the three alignments in turn on one widget."""
-    import urwid
-    from urwid import text_layout
-
+def encode_text(mode, kind, ids):
+    """The text urwid is given for a sequence of class ids, and offset -> character index (None inside a character)."""
     codec = MODES[mode]
     chars = [CHARS[mode][i] for i in ids]
     s = "".join(chars)
     if kind == "str":
-        text = s
+        return s, (lambda o: o)
+    bmap, bo = {}, 0
+    for ci, ch in enumerate(chars):
+        bmap[bo] = ci
+        bo += len(ch.encode(codec))
+    bmap[bo] = len(chars)
+    return s.encode(codec), bmap.get
 
-        def idx(o):
-            return o
-    else:
-        text = s.encode(codec)
-        bmap, bo = {}, 0
-        for ci, ch in enumerate(chars):
-            bmap[bo] = ci
-            bo += len(ch.encode(codec))
-        bmap[bo] = len(chars)
 
-        def idx(o):
-            return bmap.get(o)
+def observe(mode, widget, text, idx, e, w, align, wrap, rows_first, held):
+    """The judged queries of one event: the layout structure for the modes in force, rows / render / pack at width w."""
+    from urwid import text_layout
+
+    stage = "layout"
+    try:
+        lay = text_layout.StandardTextLayout().layout(text, w, align, wrap)
+        e["lay"], e["split"] = convert_layout(mode, lay, idx)
+        if rows_first:
+            stage = "rows"
+            e["rows"] = int(widget.rows((w,)))
+            stage = "render"
+            canv = widget.render((w,))
+        else:
+            stage = "render"
+            canv = widget.render((w,))
+            stage = "rows"
+            e["rows"] = int(widget.rows((w,)))
+        if held is not None:
+            held.append(canv)
+        e["rend"] = [to_ids(mode, row) for row in canv.text]
+        stage = "pack"
+        e["prows"] = int(widget.pack((w,))[1])
+    except Exception as ex:  # noqa: BLE001
+        e["exc"] = f"{stage}:{type(ex).__name__}"
+        return _exc_detail(ex)
+    return ""
+
+
+def run_case(mode, kind, ids, w, wrap, order=0):
+    """One trace: the text laid out at width w with wrap mode wrap, the three alignments in turn on one widget."""
+    import urwid
+
+    text, idx = encode_text(mode, kind, ids)
     ev, details = [], []
     widget = None
+    held = []
+    align0 = ALIGNS[(order + 1) % 3]
     for j, align in enumerate(ALIGNS):
-        e = {"w": w, "wrap": wrap, "align": align, "exc": "", "split": 0, "lay": [[]], "rend": [], "rows": 0, "prows": 0}
+        e = {"op": "align", "w": w, "wrap": wrap, "align": align, "exc": "", "split": 0, "lay": [[]], "rend": [], "rows": 0, "prows": 0}
         detail = ""
-        stage = "layout"
         try:
-            lay = text_layout.StandardTextLayout().layout(text, w, align, wrap)
-            e["lay"], e["split"] = convert_layout(mode, lay, idx)
-            stage = "widget"
             if widget is None:
                 # the widget has a history: another alignment, wrap mode and width were laid out (and cached) before
-                stage = "prime"
-                widget = urwid.Text(text, ALIGNS[(order + 1) % 3], WRAPS[(WRAPS.index(wrap) + 1 + order) % 4])
+                widget = urwid.Text(text, align0, WRAPS[(WRAPS.index(wrap) + 1 + order) % 4])
                 widget.rows((w + 1 if order or w == 1 else w - 1,))
                 widget.set_wrap_mode(wrap)
                 widget.rows((w + 1 if order or w == 1 else w - 1,))
-                stage = "widget"
             widget.set_align_mode(align)
             widget.rows((w + 1 if order or w == 1 else w - 1,))        # a layout for another width is cached at this point
-            if (order + j) % 2 == 0:
-                stage = "rows"
-                e["rows"] = int(widget.rows((w,)))
-                stage = "render"
-                canv = widget.render((w,))
-            else:
-                stage = "render"
-                canv = widget.render((w,))
-                stage = "rows"
-                e["rows"] = int(widget.rows((w,)))
-            e["rend"] = [to_ids(mode, row) for row in canv.text]
-            stage = "pack"
-            e["prows"] = int(widget.pack((w,))[1])
         except Exception as ex:  # noqa: BLE001
-            e["exc"] = f"{stage}:{type(ex).__name__}"
+            e["exc"] = f"prime:{type(ex).__name__}"
             detail = _exc_detail(ex)
+        else:
+            del held[:-1]                    # the canvas of the previous alignment is still referenced while the mode changes
+            detail = observe(mode, widget, text, idx, e, w, align, wrap, (order + j) % 2 == 0, held)
         ev.append(e)
         details.append(detail)
-    return {"mode": mode, "kind": kind, "text": list(ids), "mm": MINMARK[mode], "w": w, "wrap": wrap, "order": order,
+    return {"mode": mode, "kind": kind, "text": list(ids), "mm": MINMARK[mode], "w": w, "wrap": wrap, "wrap0": wrap, "align0": align0,
+            "order": order, "ev": ev, "_detail": details}
+
+
+HIST_OPS = ["layout", "layout", "align", "wrap", "text", "none"]
+
+
+def gen_hist(rng, mode, kind):
+    """A history on ONE Text widget: (mutator, queries at a width) steps; canvases stay referenced or not."""
+    alpha = RND[mode]
+
+    def rtext():
+        return tuple(rng.choice(alpha) for _ in range(rng.randint(2, 12)))
+    ws = rng.sample([2, 3, 4, 5, 6, 8], 2)
+    hold = rng.choice([1, 1, 1, 0, 2])        # 1: every canvas stays referenced, 0: none, 2: decided per step
+    steps = []
+    for _ in range(rng.randint(4, 8)):
+        op = rng.choice(HIST_OPS)
+        steps.append((op, rng.choice(ALIGNS), rng.choice(WRAPS), rtext() if op == "text" else None,
+                      ws[0] if rng.random() < 0.75 else ws[1],                 # width of the judged queries
+                      rng.choice([0, 0, ws[0], ws[1]]),                        # an unjudged render at this width before them (0: none)
+                      rng.randint(0, 1), rng.randint(0, 1), rng.randint(0, 1)))  # rows first | property spelling | keep (hold = 2)
+    return (mode, "H", kind, rtext(), rng.choice(ALIGNS), rng.choice(WRAPS), tuple(steps), hold)
+
+
+def run_hist(mode, fam, kind, ids0, align0, wrap0, steps, hold):
+    """One trace: a Text widget that lives through mutators (set_layout, set_align_mode / .align, set_wrap_mode / .wrap,
+    set_text) interleaved with rows / render / pack; the trace specification keeps the modes in force (TextLayoutOps.WidgetApply)."""
+    import urwid
+
+    cur_ids, align, wrap = tuple(ids0), align0, wrap0
+    text, idx = encode_text(mode, kind, cur_ids)
+    ev, details = [], []
+    held = []
+    widget = None
+    for op, a, wr, ids, w, pre, rows_first, spell, keep in steps:
+        e = {"op": op, "w": w, "wrap": wrap, "align": align, "text": list(cur_ids), "exc": "", "split": 0, "lay": [[]], "rend": [],
+             "rows": 0, "prows": 0, "got": ["", ""], "via": "", "heldw": 0, "chg": 0}
+        detail = ""
+        try:
+            if widget is None:
+                widget = urwid.Text(text, align0, wrap0)
+            before = (cur_ids, align, wrap)
+            if op == "layout":
+                align, wrap = a, wr
+                widget.set_layout(a, wr)
+                e["via"] = "set_layout"
+            elif op == "align":
+                align = a
+                if spell:
+                    widget.align = a
+                else:
+                    widget.set_align_mode(a)
+                e["via"] = ".align" if spell else "set_align_mode"
+            elif op == "wrap":
+                wrap = wr
+                if spell:
+                    widget.wrap = wr
+                else:
+                    widget.set_wrap_mode(wr)
+                e["via"] = ".wrap" if spell else "set_wrap_mode"
+            elif op == "text":
+                cur_ids = tuple(ids)
+                text, idx = encode_text(mode, kind, cur_ids)
+                widget.set_text(text)
+                e["via"] = "set_text"
+            e["align"], e["wrap"], e["text"] = align, wrap, list(cur_ids)
+            e["chg"] = int(before != (cur_ids, align, wrap))
+            e["heldw"] = int(any(c.cols() == w for c in held))      # a canvas rendered earlier at this width is still referenced
+            e["got"] = [str(widget.align), str(widget.wrap)]
+            if pre:
+                c = widget.render((pre,))
+                if hold == 1 or (hold == 2 and keep):
+                    held.append(c)
+                del c
+        except Exception as ex:  # noqa: BLE001
+            e["exc"] = f"{op}:{type(ex).__name__}"
+            detail = _exc_detail(ex)
+        else:
+            detail = observe(mode, widget, text, idx, e, w, align, wrap, rows_first, held if hold == 1 or (hold == 2 and keep) else None)
+        ev.append(e)
+        details.append(detail)
+        if e["exc"]:
+            break
+    return {"mode": mode, "kind": kind, "fam": "H", "text": list(ids0), "mm": MINMARK[mode], "w": steps[0][4], "wrap": wrap0, "wrap0": wrap0,
+            "align0": align0, "hold": hold, "steps": [list(st[:3]) + [list(st[3]) if st[3] else []] + list(st[4:]) for st in steps],
             "ev": ev, "_detail": details}
 
 
@@ -233,11 +355,16 @@ def _handle(chk, traces, res):
     for ti, l, why in res.rejects:
         tr = traces[ti]
         e = tr["ev"][l - 1]
-        sig = {"mode": tr["mode"], "kind": tr["kind"], "wrap": tr["wrap"], "align": e["align"], "width": tr["w"], "exc": e["exc"],
-               "exc_detail": tr["_detail"][l - 1], **features(tr["text"], tr["w"], tr["wrap"])}
-        chk.reject(f"C03.{why}", sig, {"mode": tr["mode"], "kind": tr["kind"], "text": tr["text"], "w": tr["w"], "wrap": tr["wrap"],
-                                       "order": tr["order"], "align": e["align"],
-                                       "text_repr": repr("".join(CHARS[tr["mode"]][i] for i in tr["text"])), "observed": e})
+        ids = e.get("text", tr["text"])
+        sig = {"mode": tr["mode"], "kind": tr["kind"], "wrap": e["wrap"], "align": e["align"], "width": e["w"], "exc": e["exc"],
+               "exc_detail": tr["_detail"][l - 1], "op": e["op"], **features(ids, e["w"], e["wrap"])}
+        rp = {"mode": tr["mode"], "kind": tr["kind"], "text": tr["text"], "w": tr["w"], "wrap": tr["wrap"], "align": e["align"],
+              "text_repr": repr("".join(CHARS[tr["mode"]][i] for i in ids)), "observed": e}
+        if tr.get("fam") == "H":
+            rp.update({"fam": "H", "align0": tr["align0"], "wrap0": tr["wrap0"], "steps": tr["steps"], "hold": tr["hold"], "event": l})
+        else:
+            rp["order"] = tr["order"]
+        chk.reject(f"C03.{why}", sig, rp)
 
 
 MC_INVS = ["RefValid", "RefDisplayed", "RefEmptyOnlyWhenUndisplayable", "DupRefuted", "DropRefuted", "OverRefuted", "EarlyRefuted",
@@ -256,30 +383,31 @@ def texts_upto(alpha, n):
 
 
 def generate(chk, quick):
-    """The quantified domain: (mode, kind, text, width, wrap) -> one trace with the three alignments."""
+    """The quantified domain: (mode, kind, text, width, wrap) -> one trace with the three alignments; histories on one widget."""
     rng = chk.rng
     cases = []
     order = 0
     for mode in MODES:
-        for kind in ("str", "bytes"):
+        for kind in KINDS[mode]:
             full = mode == "utf8" and kind == "str"
+            dbcs = mode in DBCS
+            extra = []
             if quick:
                 maxlen, widths = 3, range(1, 6)
                 if full:      # length 4 over two sub-alphabets (without the second letter; without newline or without zero-width)
                     extra = sorted(set(itertools.product([1, 3, 4, 5], repeat=4)) | set(itertools.product([1, 3, 5, 6], repeat=4)))
                 elif mode == "narrow":   # long enough for the three-column mark
                     extra = list(itertools.product([1, 3], repeat=4)) + list(itertools.product([1, 3], repeat=5))
-                else:
-                    extra = []
             else:
                 maxlen, widths = 4, range(1, 8)
                 if full:      # length 5 without the second letter
                     extra = list(itertools.product([1, 3, 4, 5, 6], repeat=5))
                 elif mode == "narrow":
                     extra = list(itertools.product([1, 3], repeat=6)) + list(itertools.product([1, 3], repeat=7))
-                else:
-                    extra = []
-            for ids in itertools.chain(texts_upto(EXH[mode], maxlen), extra):
+            if mode in EXH2:   # the sequence-forming characters among letters: the same lengths over a second alphabet
+                extra = list(extra) + [t for t in texts_upto(EXH2[mode], maxlen) if any(i != 1 for i in t)]
+            exh = () if dbcs and kind == "str" else texts_upto(EXH[mode], maxlen)     # str in a double-byte encoding: random texts only
+            for ids in itertools.chain(exh, extra):
                 tw = sum(CW[i] for i in ids)
                 for w in widths:
                     if (w > tw + 2 and w > 2) or (quick and full and len(ids) == 4 and w > 4):
@@ -287,17 +415,29 @@ def generate(chk, quick):
                     for wrap in WRAPS:
                         order += 1
                         cases.append((mode, kind, ids, w, wrap, order % 2))
-            for _ in range(400 if quick else 8000):
+            nrnd = (400 if quick else 8000) if not dbcs else (250 if quick else 4000)
+            for _ in range(nrnd):
                 n = rng.randint(5, 30)
                 ids = tuple(rng.choice(RND[mode]) for _ in range(n))
                 w = rng.choice([1, 2, 2, 3, 3, 4, 5, 6, 7, 8, 10, 12, 16, 25])
                 cases.append((mode, kind, ids, w, rng.choice(WRAPS), rng.randint(0, 1)))
+            nh = HIST_N.get((mode, kind), 0) * (1 if quick else 10)
+            cases += [gen_hist(rng, mode, kind) for _ in range(nh)]
     return cases
+
+
+# histories per (mode, kind) in the quick tier (x 10 in the thorough tier)
+HIST_N = {("utf8", "str"): 260, ("utf8", "bytes"): 120, ("narrow", "str"): 60, ("wide", "bytes"): 40, ("gbk", "bytes"): 80, ("gbk", "str"): 40,
+          ("uhc", "bytes"): 40, ("big5", "bytes"): 40}
+
+
+def _run(c):
+    return run_hist(*c) if c[1] == "H" else run_case(*c)
 
 
 def _execute_chunk(chunk):
     with Enc(chunk[0][0]):
-        return [run_case(*c) for c in chunk]
+        return [_run(c) for c in chunk]
 
 
 def _chunks(cases, procs):
@@ -345,7 +485,7 @@ def run(chk):
             if not r.ok:
                 chk.reject("C03.model." + str(r.violated), {"model": "TextLayout"}, {"tlc_trace": r.trace[-2:]})
         elif r.violated != expect:
-            chk.vacuity.append(f"TextLayout wrong variant {name} never differs from the reference within bounds")
+            chk.vacuity.append(f"TextLayout wrong variant {name} is not refuted (or never differs from the reference) within bounds")
     coverage_finish(chk, cov)
 
 
@@ -356,9 +496,23 @@ def model_check_all(chk, quick):
     # expressed as the invariant "variant = reference" (Same<Variant> in TextLayout.tla), which has to be VIOLATED
     with cf.ThreadPoolExecutor(4) as pool:
         futs = [(m, pool.submit(tlc.mc, "TextLayout", _mc_cfg(4, 4, ["Same" + m]), workers=1, timeout=300, heap="2g")) for m in MUTANTS]
+        # the Text widget as a state machine with its two memories (canvas cache, kept translation): the design is safe,
+        # the three wrong designs (a mutator that keeps a memory) are refuted
+        wfuts = [(v, pool.submit(tlc.mc, "TextLayoutWidget", _widget_cfg(v), workers=1, timeout=300, heap="2g")) for v in WIDGET_VARIANTS]
         for m, f in futs:
             out.append((f"variant_{m}_differs", f.result(), "Same" + m))
+        for v, f in wfuts:
+            out.append((f"MC_TextLayoutWidget_{v}", f.result(), None if v == "ok" else "AnswersBelongToStateInForce"))
     return out
+
+
+WIDGET_VARIANTS = ["ok", "layout_keeps_canvases", "setter_keeps_translation", "text_keeps_canvases"]
+
+
+def _widget_cfg(variant):
+    invs = ["TypeOK", "AnswersBelongToStateInForce"] + (["MemoriesAreCurrent"] if variant == "ok" else [])
+    return (f'CONSTANTS Widths = {{2, 3}} Variant = "{variant}"\nSPECIFICATION Spec\n' + "".join(f"INVARIANT {i}\n" for i in invs)
+            + "CHECK_DEADLOCK FALSE\n")
 
 
 def coverage_update(cov, traces):
@@ -367,11 +521,17 @@ def coverage_update(cov, traces):
     def bump(k):
         cc[k] = cc.get(k, 0) + 1
     for t in traces:
-        ids = t["text"]
+        hist = t.get("fam") == "H"
         for e in t["ev"]:
+            ids = e.get("text", t["text"])
             bump(f"{t['mode']}.{t['kind']}")
             bump(f"wrap.{e['wrap']}")
             bump(f"align.{e['align']}")
+            if hist:
+                bump("hist.events")
+                bump(f"hist.op.{e['op']}")
+                if e["chg"] and e["heldw"]:
+                    bump(f"hist.{e['op']}_changes_widget_while_canvas_of_that_width_is_referenced")
             if e["exc"]:
                 bump("raised")
                 continue
@@ -399,6 +559,20 @@ def coverage_update(cov, traces):
                         feats.add("clipped_beyond_width")
             if len(lay) > 1:
                 feats.add("multi_line")
+            if t["mode"] in DBCS and t["kind"] == "bytes" and (len(lay) > 1 or "clipped_beyond_width" in feats):
+                # a wrap / cut next to a double-byte character whose second byte is in the ASCII range
+                ends = {g["e"] for line in lay for g in line if g["k"] == "t"}
+                if any(0 < x < len(ids) and (ids[x - 1] in LOWTRAIL[t["mode"]] or ids[x] in LOWTRAIL[t["mode"]]) for x in ends):
+                    feats.add("dbcs_cut_next_to_low_second_byte")
+                if any(0 < x < len(ids) and ids[x - 1] == 5 for x in ends) or any(0 <= x < len(ids) and ids[x] == 5 for x in ends):
+                    feats.add("dbcs_cut_next_to_low_lead_low_second_byte")
+            if t["mode"] == "utf8" and features(ids, e["w"], e["wrap"])["overflow"]:
+                if any(ids[i] == 16 and CW[ids[i + 1]] > 0 for i in range(len(ids) - 1)):
+                    feats.add("joiner_before_visible_character_in_overflowing_line")
+                if any(ids[i + 1] == 17 and CW[ids[i]] > 0 for i in range(len(ids) - 1)):
+                    feats.add("variation_selector_after_base_in_overflowing_line")
+                if any(ids[i] in (19, 20) and ids[i + 1] in (19, 20) for i in range(len(ids) - 1)):
+                    feats.add("regional_indicator_pair_in_overflowing_line")
             if e["wrap"] == "space" and len(lay) > 1 and any(len(line) == 1 and line[0]["k"] == "t" for line in lay[:-1]):
                 feats.add("space_mode_break_without_consumed_space")
             if e["align"] == "center" and any(g["k"] == "p" and g["c"] > 0 for line in lay for g in line[:1]):
@@ -406,8 +580,8 @@ def coverage_update(cov, traces):
             for f in feats:
                 bump(f)
             if feats:
-                nontriv.add(hash((t["mode"], t["kind"], tuple(ids), t["w"], e["wrap"], e["align"])))
-        if len(cov["samples"]) < 3 and len(t["ev"][0]["lay"]) > 1 and t["wrap"] == "space" and len(ids) >= 4 and not t["ev"][0]["exc"]:
+                nontriv.add(hash((t["mode"], t["kind"], tuple(ids), e["w"], e["wrap"], e["align"])))
+        if len(cov["samples"]) < 3 and len(t["ev"][0]["lay"]) > 1 and t["wrap"] == "space" and len(t["text"]) >= 4 and not t["ev"][0]["exc"]:
             cov["samples"].append({k: v for k, v in t.items() if k not in ("_detail", "ev")} | {"ev": t["ev"][:1]})
 
 
@@ -415,13 +589,23 @@ def coverage_finish(chk, cov):
     cc = cov["cc"]
     chk.cov["clause_counts"] = dict(sorted(cc.items()))
     for need in ("ellipsis_mark", "negative_shift", "align_pad", "space_left_out", "zero_width_left_out", "clipped_beyond_width", "multi_line",
-                 "empty_line_layout", "space_mode_break_without_consumed_space", "centred"):
+                 "empty_line_layout", "space_mode_break_without_consumed_space", "centred",
+                 "dbcs_cut_next_to_low_second_byte", "dbcs_cut_next_to_low_lead_low_second_byte",
+                 "joiner_before_visible_character_in_overflowing_line", "variation_selector_after_base_in_overflowing_line",
+                 "regional_indicator_pair_in_overflowing_line", "hist.events",
+                 "hist.layout_changes_widget_while_canvas_of_that_width_is_referenced",
+                 "hist.align_changes_widget_while_canvas_of_that_width_is_referenced",
+                 "hist.wrap_changes_widget_while_canvas_of_that_width_is_referenced",
+                 "hist.text_changes_widget_while_canvas_of_that_width_is_referenced"):
         if not cc.get(need):
             chk.vacuity.append(f"driver never produced a layout with {need}")
     chk.cov["distinct_nontrivial"] = len(cov["nontriv"])
     chk.cov["rule"] = ("one case = (encoding mode, str|bytes, text, width, wrap, align); exhaustive: every text over the mode's alphabet "
-                       "(utf8 {a b space newline wide zero-width}, euc-jp {a b space newline wide}, latin-1 {a e-acute space newline}) up to the "
-                       "tier's length x widths x 4 wrap modes x 3 alignments, plus seeded random texts of 5..30 characters over a richer alphabet; "
+                       "(utf8 {a b space newline wide zero-width} and {a joiner VS-16 regional-indicator}, euc-jp {a b space newline wide}, "
+                       "gbk/uhc/big5 bytes {a space (newline) wide-with-low-second-byte x2}, latin-1 {a e-acute space newline}) up to the "
+                       "tier's length x widths x 4 wrap modes x 3 alignments, plus seeded random texts of 5..30 characters over a richer alphabet, "
+                       "plus seeded histories on one widget (set_layout / set_align_mode / set_wrap_mode / set_text between queries at two "
+                       "widths, canvases referenced or dropped); "
                        "non-trivial = distinct cases whose layout wraps, clips, leaves a character out, carries a mark or an alignment shift")
     chk.cov["exhaustive"] = True
     for smp in cov["samples"]:
@@ -444,7 +628,11 @@ def replay(chk, path):
         rp = json.load(f)["replay"]
     check_tables()
     with Enc(rp["mode"]):
-        tr = run_case(rp["mode"], rp["kind"], tuple(rp["text"]), rp["w"], rp["wrap"], rp.get("order", 0))
+        if rp.get("fam") == "H":
+            steps = [tuple(st[:3]) + (tuple(st[3]) or None,) + tuple(st[4:]) for st in rp["steps"]]
+            tr = run_hist(rp["mode"], "H", rp["kind"], tuple(rp["text"]), rp["align0"], rp["wrap0"], steps, rp["hold"])
+        else:
+            tr = run_case(rp["mode"], rp["kind"], tuple(rp["text"]), rp["w"], rp["wrap"], rp.get("order", 0))
     res = tlc.validate("TextLayoutTrace", [tr], jobs=1, timeout=300)
     chk.add_tv("replay", res)
     _handle(chk, [tr], res)
